@@ -240,9 +240,10 @@ def audit(ctx, prop_file):
 # evaluate model expressions in Coq and compare with expected canonical values
 # --------------------------------------------------------------------------------------
 def _run_chunk(args):
-    path, imports, pairs = args
+    path, imports, pairs, prelude = args
     with open(path, "w") as f:
         f.write(f"From BP Require Import Base.Prelude {imports}.\n")
+        f.write(prelude + "\n")
         f.write("Definition cases : list (cv * cv) := [\n")
         f.write(";\n".join(f"({m}, {e})" for m, e in pairs))
         f.write("\n].\nDefinition bad := Eval vm_compute in mismatches cases.\nPrint bad.\n")
@@ -255,8 +256,9 @@ def _run_chunk(args):
     return [int(x) for x in re.findall(r"-?\d+", m.group(1).replace("%Z", ""))], ""
 
 
-def coq_compare(ctx, name, imports, pairs, chunk=400):
-    """pairs: list of (model_expr : cv, expected : cv literal). Returns sorted list of
+def coq_compare(ctx, name, imports, pairs, chunk=400, prelude=""):
+    """pairs: list of (model_expr : cv, expected : cv literal); prelude: Gallina text (Definitions shared by the
+    cases, e.g. schemas) placed before them in every chunk file. Returns sorted list of
     indices where the model disagrees with the implementation; raises RuntimeError if
     the case file does not compile (model not runnable)."""
     if not pairs:
@@ -264,7 +266,7 @@ def coq_compare(ctx, name, imports, pairs, chunk=400):
     jobs = []
     for ci, start in enumerate(range(0, len(pairs), chunk)):
         path = os.path.join(ctx.work, f"{name}_{ci}.v")
-        jobs.append((path, imports, pairs[start:start + chunk]))
+        jobs.append((path, imports, pairs[start:start + chunk], prelude))
     bad = []
     with ThreadPoolExecutor(max_workers=JOBS) as ex:
         for ci, (res, err) in enumerate(ex.map(_run_chunk, jobs)):
